@@ -29,6 +29,15 @@ Theorem C18_unmask_any_code : forall prep segs segs' tail',
 Proof. exact unmask_any_code. Qed.
 Print Assumptions C18_unmask_any_code.
 
+(* the project option `lower` lower-cases the statement after its literals have been cut out: the
+   literals are put back exactly as written, only the code around them is lower-cased *)
+Theorem C18_lower_keeps_literals : forall prep segs tail,
+  keeps_literals prep -> wf_line segs tail = true ->
+  unmask_in prep (lits segs) (lower (render_masked 0 segs tail))
+  = Some (render_with prep (lower_segs segs) (lower tail)).
+Proof. exact lower_keeps_literals. Qed.
+Print Assumptions C18_lower_keeps_literals.
+
 (* escaped text is inert in element content and in attribute values, decodes to the original, and an
    HTML reader sees exactly the original text and no element *)
 Theorem C18_escape_inert : forall x,
